@@ -21,7 +21,7 @@ RULE = ('programs of 1-3 nodes; every node carries a combination of option lists
         'value touches or misses (i.e. every generated program except bare declarations); distinct by rendered text')
 SHARDS = {'quick': 16, 'thorough': 16}
 MIN_NONTRIVIAL = {'quick': 2000, 'thorough': 50000}
-REQUIRED_CLASSES = ['edge:value-rank-versus-declared-dimensions', 'edge:rank:vector-for-matrix', 'edge:rank:control-matrix-inside', 'edge:bare-number-in-condition', 'edge:bare-number-accept', 'edge:bare-number-reject', 'edge:bare-number:node-then-bare', 'format-on-empty-string-violated', 'staged-base', 'staged-base:inherited-condition-violated-through-another-node', 'edge:int-options-in-another-unit', 'edge:int-option-member', 'edge:int-option-non-member', 'edge:constraint-on-imported-copy', 'edge:import-condition', 'edge:import-format', 'edge:import-options', 'edge:import-remote', 'foreign-workload:C13', 'foreign-workload:C14', 'foreign-workload:C17', 'foreign-workload:C18', 'edge:sliced-injection-into-bounded-array', 'edge:slice-within-bounds', 'edge:slice-outside-bounds', 'expected-accept', 'expected-reject', 'option-per-line', 'option-list-form', 'option-in-other-unit',
+REQUIRED_CLASSES = ['edge:constraint-in-an-offset-or-logarithmic-unit', 'edge:offset-constraint:condition', 'edge:offset-constraint:option-int', 'edge:value-rank-versus-declared-dimensions', 'edge:rank:vector-for-matrix', 'edge:rank:control-matrix-inside', 'edge:bare-number-in-condition', 'edge:bare-number-accept', 'edge:bare-number-reject', 'edge:bare-number:node-then-bare', 'format-on-empty-string-violated', 'staged-base', 'staged-base:inherited-condition-violated-through-another-node', 'edge:int-options-in-another-unit', 'edge:int-option-member', 'edge:int-option-non-member', 'edge:constraint-on-imported-copy', 'edge:import-condition', 'edge:import-format', 'edge:import-options', 'edge:import-remote', 'foreign-workload:C13', 'foreign-workload:C14', 'foreign-workload:C17', 'foreign-workload:C18', 'edge:sliced-injection-into-bounded-array', 'edge:slice-within-bounds', 'edge:slice-outside-bounds', 'expected-accept', 'expected-reject', 'option-per-line', 'option-list-form', 'option-in-other-unit',
                     'option-on', 'option-near', 'option-all-off', 'str-option-member', 'str-option-not-member',
                     'cond-le-on', 'cond-le-near', 'cond-lt-on', 'cond-ge-above', 'cond-eq-near', 'cond-ne-on',
                     'condition-compound', 'condition-constant-in-other-unit', 'bool-condition-satisfied',
@@ -74,6 +74,8 @@ def cases(rng, tier, shard, nshards, ctx):
             yield dip_edge.gen_c16_bare(rng)
         if i % 8 == 3:
             yield dip_edge.gen_c16_rank(rng)
+        if i % 8 == 5:
+            yield dip_edge.gen_c16_offset(rng)
         if i % 8 == 2:
             # programs parsed on top of a base environment: constraints sitting on INHERITED nodes still hold in what is returned
             from vt.props import c17_base
@@ -272,7 +274,7 @@ def run_case(case, ctx):
         return out
     if case.get('edge'):
         from vt.props import dip_edge
-        out = {'c16-slice': dip_edge.run_c16, 'c16-import': dip_edge.run_c16_import, 'c16-intopt': dip_edge.run_c16_intopt, 'c16-bare': dip_edge.run_c16_bare, 'c16-rank': dip_edge.run_c16_rank}[case['edge']](case, ctx)
+        out = {'c16-slice': dip_edge.run_c16, 'c16-import': dip_edge.run_c16_import, 'c16-intopt': dip_edge.run_c16_intopt, 'c16-bare': dip_edge.run_c16_bare, 'c16-rank': dip_edge.run_c16_rank, 'c16-offset': dip_edge.run_c16_offset}[case['edge']](case, ctx)
         R.drain_parse_deviations()
         if ctx.get('hyg') is not None and ctx['hyg'].check_restore():
             out['monitors']['table_leaks_restored'] = 1
